@@ -366,5 +366,21 @@ CHECKS["C10"]["quick"] += G_FULL[:1]
 CHECKS["C13"]["quick"] += G_FULL[:1]
 CHECKS["C14"]["quick"] += G_FULL[:1]
 
+# deeper bounds for the thorough tier
+G_FOLD_T2 = [_g("g_fold_k3_close_stop", _W_G, "3 actions; close(); loop; stop()"), _g("g_fold_k3_close_dispatch_stop", _W_G, "3 actions; close(); dispatch rejected; stop()"), _g("g_fold_k1_drop", _W_G + "; drop(DroppableStore)", "1 action")]
+S_RACE_B2 = [_g(n, _W_RACE, "backlog 2, placement " + n[10:], timeout_s=800) for n in ["s_race_b2_close_sent", "s_race_b2_join", "s_race_b2_loop_taken1", "s_race_b2_loop_notify1", "s_race_b2_loop_recv2"]]
+for _p in ("C01", "C04", "C08"):
+    CHECKS[_p]["thorough"] += G_FOLD_T2[:2]
+CHECKS["C15"]["thorough"] += G_FOLD_T2[2:]
+CHECKS["C04"]["thorough"] += S_RACE_B2
+CHECKS["C01"]["thorough"] += S_RACE_B2[:2]
+CHECKS["C02"]["thorough"] += [H("u_chan::chan_step_cap4", "one send from an arbitrary queue, capacity 4", "capacity 4", timeout_s=400)]
+CHECKS["C05"]["thorough"] += [H("u_chan::chan_step_cap4", "one send from an arbitrary queue, capacity 4", "capacity 4", timeout_s=400)]
+CHECKS["C06"]["thorough"] += [H("u_chan::chan_step_cap4", "one send from an arbitrary queue, capacity 4", "capacity 4", timeout_s=400)]
+CHECKS["C12"]["thorough"] += [_ph("u_notify_s3_m3", _W_NOT, "3 subscribers, 3 middlewares"), _ph("u_reduce_r3_m2", _W_RED, "3 reducers, 2 middlewares")]
+CHECKS["C03"]["thorough"] += [_ph("u_notify_s3_m3", _W_NOT, "3 subscribers, 3 middlewares")]
+CHECKS["C19"]["thorough"] += [_g2("g_two_drop_2_2", _W_TWO, "A: 2+1 actions, B: 2 actions, B dropped")]
+CHECKS["C09"]["thorough"] += [_gn(n, _W_UNSUB, b, timeout_s=900) for n, b in [("s_unsub_taken0", "right after action 0 was taken"), ("s_unsub_effect1", "during the effect phase of action 1")]]
+
 HOOK_COMMITS = ['da8b80e', '8cd617e', '39efd23']
 NOT_APPLICABLE = {}
